@@ -85,12 +85,14 @@ def run(chk):
         for order in orders:
             imp, exp_ = kp.HumdrumPitchImporter(), kp.HumdrumPitchExporter()
             bad_h = None
+            held = []          # every result is kept: a later call must not rewrite an earlier result
             for k in order:
                 l, a, o = grid[k]
                 chk.evaluations += 1
                 try:
                     p = imp.import_pitch(texts[k])
                     got_i = f'{p.name}|{p.octave}'
+                    held.append((k, p))
                 except Exception:
                     got_i = 'raise'
                 try:
@@ -106,6 +108,13 @@ def run(chk):
                 if got_e != f'{texts[k]}|{texts[k]}|{names[k]}|{o}' and bad_h is None:
                     bad_h = ('history-export', f'one exporter instance: export_pitch({names[k]},{o}) twice = {got_e} after earlier exports, expected {texts[k]!r}',
                              {'name': names[k], 'octave': o, 'order': 'shared-instance'})
+            seen_ids = set()
+            for k, p in held:
+                l, a, o = grid[k]
+                if (f'{p.name}|{p.octave}' != f'{names[k]}|{o}' or id(p) in seen_ids) and bad_h is None:
+                    bad_h = ('history-import', f'one importer instance: the pitch returned for {texts[k]!r} reads {p.name}|{p.octave} after later imports '
+                             f'(expected {names[k]}|{o}; same object handed out twice: {id(p) in seen_ids})', {'spelling': texts[k], 'order': 'shared-instance-retained'})
+                seen_ids.add(id(p))
             chk.distinct.add(('history', tuple(order[:8])))
             if bad_h:
                 chk.violation(*bad_h)
